@@ -46,6 +46,13 @@ pub enum MEdit {
     /// `walls_to_ground`, windowless vertical exterior walls of spaces that end up below ground
     /// become ground-contact walls
     MoveBuildingZ { dz: f64, walls_to_ground: bool },
+    /// editor operation on a whole collection: every element of the array at `ptr` gets
+    /// `key` = `value` (all spaces uninhabited, all exterior walls adiabatic, ...); with
+    /// `only_if` = (key, value) only the elements that currently have that member
+    SetAll { ptr: String, key: String, value: Value, only_if: Option<(String, Value)> },
+    /// every number found at the generic pointer `gptr` (array indices written as `*`) is
+    /// multiplied by `factor` (all windows ten times wider, all layers a tenth as thick, ...)
+    ScaleAll { gptr: String, factor: f64 },
 }
 
 impl MEdit {
@@ -75,6 +82,8 @@ impl MEdit {
             MEdit::RenameAllNames => "variant.names",
             MEdit::RemapAllIds => "variant.ids",
             MEdit::MoveBuildingZ { .. } => "edit.move_building_z",
+            MEdit::SetAll { .. } => "edit.set_all",
+            MEdit::ScaleAll { .. } => "edit.scale_all",
         }
     }
     /// pointer with array indices replaced by `*` (stratification / grouping)
@@ -459,6 +468,39 @@ pub fn apply(m: &mut Value, e: &MEdit, serial: u64) -> bool {
                 }
             }
             any
+        }
+        MEdit::SetAll { ptr, key, value, only_if } => {
+            let mut any = false;
+            if let Some(a) = m.pointer_mut(ptr).and_then(|w| w.as_array_mut()) {
+                for e in a.iter_mut() {
+                    if let Some((k, v)) = only_if {
+                        if e.get(k) != Some(v) {
+                            continue;
+                        }
+                    }
+                    if let Some(o) = e.as_object_mut() {
+                        o.insert(key.clone(), value.clone());
+                        any = true;
+                    }
+                }
+            }
+            any
+        }
+        MEdit::ScaleAll { gptr, factor } => {
+            let mut ptrs: Vec<String> = vec![];
+            crate::closure::walk_numbers(m, &mut String::new(), &mut |p, _| {
+                if generic(p) == *gptr {
+                    ptrs.push(p.to_string());
+                }
+            });
+            for p in &ptrs {
+                if let Some(v) = m.pointer_mut(p) {
+                    if let Some(x) = v.as_f64() {
+                        *v = json!(((x * factor) * 1.0e6).round() / 1.0e6);
+                    }
+                }
+            }
+            !ptrs.is_empty()
         }
         MEdit::SetValue { ptr, value } => match m.pointer_mut(ptr) {
             Some(v) => {
